@@ -26,7 +26,9 @@ random orders, and compares every target's files with a fresh single-target run.
 namespace FinProtoc.Props
 open FinProtoc FinProtoc.Driver FinProtoc.Generated
 
-/-- a generator that leaves the model as it found it -/
+/-- a generator that leaves the model as it found it.  `M` is EVERYTHING a generator can read between two runs: the parsed
+model and the process-global state (package variables, configuration tables of imported libraries); `no_model_writes` and
+`no_global_writes` are the two halves of this hypothesis for the real generators. -/
 def Frame {M : Type} (g : Gen M) : Prop := ∀ m, (g m).2 = m
 
 theorem runAll_frame {M : Type} (gs : List (Gen M)) (hf : ∀ g ∈ gs, Frame g) (m : M) :
